@@ -1253,6 +1253,8 @@ def check_scanned(decls, comments, dump, includes, prefixdep=False, expect_ref=N
     """-> (status, err, xml)"""
     fake.number(decls)
     include_paths = [scanrun.DEPS, prefix_dep_dir()] if prefixdep else None
+    if isinstance(prefixdep, str):          # a directory under deps/ (C05 part E: deps/c15/FooDep-1.0.gir)
+        include_paths = [os.path.join(scanrun.DEPS, prefixdep), scanrun.DEPS]
     r = scanrun.scan(decls, comments, includes=includes, dump=dump, include_paths=include_paths,
                      shared_libraries=['libfoo.so.0'], c_includes=['foo.h'], packages=['foo-1.0'])
     if r.error is not None:
@@ -1272,14 +1274,20 @@ def check_scanned(decls, comments, dump, includes, prefixdep=False, expect_ref=N
     return 'ok', None, r.xml
 
 
+def _includes_of(case):
+    if case.get('includes'):
+        return case['includes']
+    return c05gen.INCLUDES + (['FooDep-1.0'] if case.get('dep') else [])
+
+
 def _work_scanned(chunk):
     part = Part()
     best = {}
     for case in chunk:
         decls = [c05gen.build(s) for s in case['decls']]
         comments = [scanrun.comment(t, line=100 + 40 * i) for i, t in enumerate(case['comments'])]
-        status, err, xml = check_scanned(decls, comments, case.get('dump'), case.get('includes', c05gen.INCLUDES),
-                                         case.get('prefixdep', False), case.get('expect_ref'))
+        status, err, xml = check_scanned(decls, comments, case.get('dump'), _includes_of(case),
+                                         case.get('dep') or case.get('prefixdep', False), case.get('expect_ref'))
         part.add(evaluations=4, states=1, transitions=len(case['decls']), traces_validated_against_impl=1)
         if status == 'noscan':
             part.add(rejected=1)
@@ -1357,12 +1365,12 @@ def run(ctx):
         ctx.violation('scan:sink:%s' % _err_class(err), 'kitchen-sink namespace: %s' % err, {'mode': 'sink'})
     prefix_dep_dir()
     scases = extra_scan_cases() + prefix_ns_cases()
-    for name in 'ABCD':
+    for name in 'ABCDE':
         scases += c05gen.PARTS[name](tier)
     # parts B and C of the C05 generator differ mostly in declaration order: every 4th description of
     # part C (and of part B in the quick tier) is taken, in enumeration order
     sub = 'BC' if tier != 'thorough' else 'C'
-    scases = [c for i, c in enumerate(scases) if c['part'] not in sub or i % 4 == 0]      # parts X and P are always complete
+    scases = [c for i, c in enumerate(scases) if c['part'] not in sub or i % 4 == 0]      # parts X, P and E are always complete
     ctx.cov['bounds']['scanned_namespaces'] = len(scases) + 1
     for r in pmap(_work_scanned, rotate(chunked(scases, 64), ctx.seed)):
         ctx.merge(r)
@@ -1414,8 +1422,8 @@ def replay(ctx, case):
         print(t)
     if case.get('dump'):
         print('runtime dump:', case['dump'])
-    status, err, xml = check_scanned(decls, comments, case.get('dump'), case.get('includes', c05gen.INCLUDES),
-                                     case.get('prefixdep', False), case.get('expect_ref'))
+    status, err, xml = check_scanned(decls, comments, case.get('dump'), _includes_of(case),
+                                     case.get('dep') or case.get('prefixdep', False), case.get('expect_ref'))
     if err and xml:
         text = xml.decode('utf-8')
         print(text[text.index('<namespace'):])
